@@ -62,6 +62,8 @@ type Sim struct {
 	dupEvidence  map[string]bool
 	effective    map[string]bool // "height/index" of deliveries with a non-empty diff
 	addrIdx      map[string]int
+	jailEnd      map[string]time.Time // C25: end of the downtime jail period per node, the simulator's own record
+	jailEdited   map[string]bool      // C25: the node was edit-staked while serving that period
 	replay       bool
 	aborted      bool
 }
